@@ -6,6 +6,7 @@
 D=$(readlink -f "$1"); shift; EXTRA="$@"
 W=${VF_CONF:-/var/tmp/vf-conf}; L=$W/_b/gnu_12.2_cxx11_64_relwithdebinfo; LOG=$D/confirm.log
 cd $W || exit 2
+[ -f $LOG ] && [ -z "$VF_CONF_FORCE" ] && { echo "CONFIRM $D: already confirmed or in progress elsewhere (confirm.log exists) - skipped"; exit 0; }
 git checkout -q -- . ; git checkout -q --detach $(git -C /repo rev-parse HEAD) 2>/dev/null
 { echo "== $(date) confirm $D at $(git rev-parse --short HEAD)"; } > $LOG
 nice cmake --build _b -j12 >> $LOG 2>&1 || { echo "CONFIRM $D: clean build failed"; exit 2; }
